@@ -37,7 +37,8 @@ def run(module, cfg, *, env=None, workers=8, simulate=None, depth=None, seed=Non
         cfgp = os.path.join(tmp, "run.cfg")
         with open(cfgp, "w") as f:
             f.write(cfg)
-        cmd = ["java", "-XX:+UseParallelGC", f"-Xmx{heap}", "-Xss512m", "-cp", JAR, "tlc2.TLC",
+        cmd = ["java", "-XX:+UseParallelGC", f"-Xmx{heap}", "-Xss512m", f"-Djava.io.tmpdir={tmp}",     # (TLC leaves an empty tlc-<n> directory per run in the temporary directory)
+               "-cp", JAR, "tlc2.TLC",
                "-metadir", os.path.join(tmp, "meta"), "-noGenerateSpecTE", "-config", cfgp]
         if simulate:
             cmd += ["-simulate", f"num={simulate}"]
